@@ -202,6 +202,9 @@ def judge(cfg, obs, est, ex):
                 elif inj is None or ("raise",) + inj not in obs:
                     V("spurious-error", f"acquirer {i},{j} got OrderedLockError with no broken section")
         if inj is not None and ("raise",) + inj in obs:
+            if not any(x[0] == "exc" and (x[1], x[2]) == inj for x in obs):
+                V("own-exception-lost", f"holder {inj} left its section with an exception but never saw it (the `with` block "
+                  f"completed normally)")
             r = obs.index(("raise",) + inj)
             # every call whose section had not been entered before the raise must error
             for o in obs:
